@@ -41,6 +41,9 @@ def parseInfo (s : String) : Option Mem.Info :=
     | _ => none
   | ["D", st, sd, dt, dd] => do
     some (.dma { srcTid := ← parseNat? st, srcDelta := ← parseInt? sd, dstTid := ← parseNat? dt, dstDelta := ← parseInt? dd })
+  | ["D", st, sd, dt, dd, v] => do
+    some (.dma { srcTid := ← parseNat? st, srcDelta := ← parseInt? sd, dstTid := ← parseNat? dt, dstDelta := ← parseInt? dd,
+                 valid := ← parseNat? v })
   | _ => none
 
 def parseExt (s : String) : Option (List (Nat × Nat)) :=
